@@ -153,6 +153,7 @@ class World:
         self.anc = {}       # spec id -> the object it was (transitively) copied from: copies inherit token bindings
         self.born = {}      # (id, variable) -> dtype at creation (adapter-side witness of "creation dtype")
         self.extras = {}    # id -> opaque extras (trace contents, aliases) last seen
+        self.shared = {}    # operand signature -> the one array object the caller passes for it
         self.span = None
 
     def tracer(self):
@@ -539,6 +540,10 @@ def execute(w, op, spec_pre):
     o = w.objs[op['o']]
     name = op['op']
     val = render(op['opd'], op['raw']) if op['opd']['cls'] != 'none' else None
+    if isinstance(val, np.ndarray):
+        # a caller hands the same array object to every operation that names the same operand ("two instances initialised
+        # from the same data"): whoever keeps it instead of copying it shows up in the identity scan
+        val = w.shared.setdefault(json.dumps([op['opd'], op['raw']], sort_keys=True), val)
     created = None
     with warnings.catch_warnings():
         warnings.simplefilter('ignore')
